@@ -114,8 +114,8 @@ class Gen:
         out = []
         if d <= 1 and self.rng.chance(1, 60):
             # the longest chain of steps the grammar allows
-            self.note("ST.chain-of-126")
-            return ["steps"] + [["member", "m%d" % (i % 7)] for i in range(126)]
+            self.note("ST.chain-of-127")
+            return ["steps"] + [["member", "m%d" % (i % 7)] for i in range(127)]
         for _ in range(self.rng.pick([0, 0, 0, 1, 1, 2, 3])):
             if self.rng.chance(1, 2):
                 self.note("ST.member")
